@@ -6,7 +6,7 @@
    model's scores.  The random generator is an oracle too: draw i is the i-th index list. *)
 From Coq Require Import String ZArith List Bool Reals.
 From XV Require Import Base.Scalar Base.Sum Base.Mat Base.RInst Model.Eof Model.Boot Gen.T5boot
-  Proofs.C01_proofs Proofs.C01_order Proofs.C20_proofs Proofs.C20_tie.
+  Proofs.C01_proofs Proofs.C01_order Proofs.C20_proofs Proofs.C20_tie Proofs.C20_names.
 Import ListNotations.
 
 (* the member's analysis is, definitionally, the EOF fit of the centred resample; by C01 its
@@ -175,26 +175,14 @@ Theorem C20_member_dim_matches_source :
 Proof. exact tie_member_dim. Qed.
 Print Assumptions C20_member_dim_matches_source.
 
-(* NAMES — "whatever its dimension names" is REFUTED on this tree: the source addresses the
-   sample dimension by the literal "sample" at the listed sites, so a model built with another
-   sample_name (or feature_name: the member is built with the default names) cannot be
-   bootstrapped (defect F-07; the failing call is reproduced by tools/props/c20.py under the key
-   C20:literal-sample-name).  The positive obligation is Proofs/C20_names.v (tie_names); flip
-   this theorem to it after a repair. *)
-Theorem C20_names_refuted : boot_literal_dims <> [].
-Proof. exact tie_names_refuted. Qed.
-Print Assumptions C20_names_refuted.
-
-Theorem C20_literal_sites :
-  (boot_literal_dims = ["input_data.sample"; "bst_model.fit:dim=sample"; "(bst_scores * model_scores).mean:sample";
-                        "bst_scores.std:sample"; "model_scores.std:sample"] /\
-   boot_member_names_forwarded = [])%string.
-Proof. exact tie_literal_sites. Qed.
-Print Assumptions C20_literal_sites.
-
-(* full positive statement about names, stated, NOT proved (false on this tree) *)
-Definition C20_names_full : Prop :=
+(* NAMES — "whatever its dimension names": the source addresses no dimension by the literals
+   "sample"/"feature" (every dimension goes through the model's sample_name) and the member EOF is
+   built with the model's own sample_name / feature_name.  The behaviour itself (models built with
+   other names are bootstrapped, with the model's structure) is tested by tools/props/c20.py. *)
+Theorem C20_names :
   boot_literal_dims = [] /\ boot_member_names_forwarded = ["sample_name"; "feature_name"]%string.
+Proof. exact tie_names. Qed.
+Print Assumptions C20_names.
 
 (* the premises are satisfiable: a genuine with-replacement resample and an admissible answer *)
 Theorem C20_premises_satisfiable :
